@@ -280,8 +280,13 @@ func (v *VStruct) exist(isValidTvKind bool, structName, fieldName, cusMsg string
 	if tv.IsZero() {
 		return
 	}
+	// 去掉指针后再判断类型, 如: *int 不是嵌套对象
+	tv = RemoveValuePtr(tv)
+	if !tv.IsValid() { // 多级指针最终指向 nil
+		return
+	}
 	switch tv.Kind() {
-	case reflect.Ptr, reflect.Struct:
+	case reflect.Struct:
 		if tv.Type() == timeReflectType {
 			return
 		}
